@@ -323,6 +323,9 @@ def LN(
     https://support.office.com/en-us/article/
         ln-function-81fe1ed7-dac9-4acd-ba1d-07a142c6118f
     """
+    if number <= 0:
+        raise xlerrors.NumExcelError(f'number {number} must be positive')
+
     return math.log(number)
 
 
@@ -337,6 +340,12 @@ def LOG(
     https://support.office.com/en-us/article/
         log-function-4e82f196-1ca9-4747-8fb0-6c4a3abb3280
     """
+    if number <= 0 or base <= 0:
+        raise xlerrors.NumExcelError(
+            f'number {number} and base {base} must be positive')
+    if base == 1:
+        raise xlerrors.DivZeroExcelError()
+
     return math.log(float(number), float(base))
 
 
@@ -364,6 +373,9 @@ def MOD(
     https://support.office.com/en-us/article/
         mod-function-9b6cd169-b6ee-406a-a97b-edf2a9dc24f3
     """
+    if divisor == 0:
+        raise xlerrors.DivZeroExcelError()
+
     return number % divisor
 
 
